@@ -934,6 +934,7 @@ package url
 //@   loop 1 decreases len(s) - i
 //@ func (*Url).IsIPv4
 //@   requires wf(u)
+//@   ensures result == (u.host != nil && special(u, u.scheme) && resultOf("url.isSerializedIPv4", *u.host))   [C19 derived-from-scheme-and-host-only]
 //@   ensures result ==> (u.host != nil && special(u, u.scheme))   [C19]
 //@   ensures result ==> (forall k int :: 0 <= k && k < len(*u.host) ==> (specIsDigit((*u.host)[k]) || (*u.host)[k] == '.'))   [C19]
 //@ func (*Url).IsIPv6
